@@ -31,7 +31,7 @@ def token_mutants(texts, rng, n):
         toks = tokens(text)
         ids = [i for i, t in enumerate(toks) if re.match(r"^[A-Za-z_][A-Za-z0-9_']*$", t) and t not in KEYWORDS and t not in MODES]
         seqs = [i for i, t in enumerate(toks) if t == ";"]
-        kind = rng.choice(["swap", "replace", "replace", "dropstmt", "dupstmt", "mode", "delete", "self"])
+        kind = rng.choice(["swap", "replace", "replace", "dropstmt", "dupstmt", "mode", "delete", "self", "merge", "merge", "merge"])
         t2 = list(toks)
         if kind == "swap" and len(ids) >= 2:
             a, b = rng.sample(ids, 2)
@@ -39,6 +39,21 @@ def token_mutants(texts, rng, n):
         elif kind == "replace" and len(ids) >= 2:
             a, b = rng.sample(ids, 2)
             t2[a] = t2[b]
+        elif kind == "merge" and len(ids) >= 2:
+            # inside ONE declaration, every occurrence of identifier a becomes b: binders start to shadow / capture live channels
+            starts = [i for i, t in enumerate(toks) if t in ("let", "prc", "type", "exec", "assuming")] + [len(toks)]
+            d = rng.randrange(len(starts) - 1)
+            lo, hi = starts[d], starts[d + 1]
+            if toks[lo] not in ("let", "prc"):
+                continue
+            body_start = next((i for i in range(lo, hi) if toks[i] == "="), lo)
+            local = sorted({toks[i] for i in ids if lo <= i < hi and (i > body_start or (i > lo + 1 and toks[i + 1] == ":"))})
+            if len(local) < 2:
+                continue
+            a, b = rng.sample(local, 2)
+            for i in range(lo, hi):
+                if i in ids and toks[i] == a and i != lo + 1:
+                    t2[i] = b
         elif kind == "dropstmt" and len(seqs) >= 2:
             k = rng.randrange(len(seqs) - 1)
             del t2[seqs[k] + 1:seqs[k + 1] + 1]
@@ -201,7 +216,7 @@ def stage(tier=None, seed=None):
             except Exception:
                 pass
             texts += annotation_programs(rng, 240 if tier == "quick" else 3000)
-            muts = token_mutants(texts, rng, 500 if tier == "quick" else 8000)
+            muts = token_mutants(texts, rng, 700 if tier == "quick" else 10000)
             cases = cases_for(texts + muts)
             fails, errs, states = validate(cases, work)
             out = []
